@@ -20,7 +20,8 @@ from . import text_common as X
 LEVEL = "model_checking"
 SIGMA = ["a", "#", ":", ";", "\\", "/", "\n", "\r", " "]
 SOUP = "a:b;c\\d//e\nf #g"
-CONTEXTS = ["value", "attacks", "chart_value", "chart_attacks", "chart_displaybpm", "chart_key", "notes", "notes2"]
+CONTEXTS = ["value", "attacks", "chart_value", "chart_attacks", "chart_displaybpm", "chart_key", "notes", "notes2",
+            "chart_stepstype", "chart_difficulty", "chart_meter", "version"]
 CHART_KEYS = ["STEPSTYPE", "METER", "CREDIT", "ATTACKS", "X"]
 NOTES_VALUES = ["", "0", "xy", "00\n01"]
 VAL_KINDS = ["", "0", "1", "x", None, "copy-of-notes", "same-as-notes"]
@@ -45,6 +46,15 @@ def state_for(context, v):
         if k in ("NOTEDATA", "NOTES", "NOTES2") or k != k.upper() or k in ("STEPSTYPE", "METER"):
             return None
         chart.insert(1, (k, "x"))
+    elif context in ("chart_stepstype", "chart_difficulty", "chart_meter"):
+        # the fields SM charts trim: in an SSC chart they are ordinary values and must survive verbatim
+        key = context[len("chart_"):].upper()
+        chart = [(k, val) for k, val in chart if k != key]
+        chart.insert(0 if key == "STEPSTYPE" else 1, (key, v))
+        if key == "DIFFICULTY":
+            chart.insert(0, ("STEPSTYPE", "dance-single")) if not any(k == "STEPSTYPE" for k, _ in chart) else None
+    elif context == "version":
+        items = [("VERSION", v), ("TITLE", "t")]
     elif context == "notes":
         chart[-1] = ("NOTES", v)
     elif context == "notes2":
